@@ -251,6 +251,42 @@ def ulps(a: float, b: float, scale: float) -> float:
 
 
 # ------------------------------------------------------------------ one case
+def pre_read(die, inp: dict) -> None:
+    """what a caller may have looked at on the very object before relocating it: public READ-ONLY properties (a report of
+    the wire length, sizes, areas).  None of them may influence a later run."""
+    if not inp.get("pre_reads"):
+        return
+    nl = die.netlist
+    for what in inp["pre_reads"]:
+        try:
+            if what == "wire_length":
+                _ = nl.wire_length
+            elif what == "edges":
+                _ = [e.wire_length for e in nl.edges]
+            elif what == "counts":
+                _ = (nl.num_modules, nl.num_edges)   # not num_rectangles: Netlist.rectangles rebuilds its list and re-assigns centres
+            elif what == "areas":
+                _ = [m.area() for m in nl.modules]
+            elif what == "die":
+                _ = (die.width, die.height, die.bounding_box.shape.w)
+            elif what == "tia":
+                _ = FR.total_intersection_area(die)
+        except Exception:  # a missing centre makes wire_length / tia assert: that is not what is under test here
+            pass
+
+
+def exact_wire_length(die) -> float | None:
+    """Netlist.wire_length from the CURRENT centres (star model of HyperEdge.wire_length), independently."""
+    tot = []
+    for e in die.netlist.edges:
+        cs = [m.center for m in e.modules]
+        if any(c is None for c in cs):
+            return None
+        ix, iy = math.fsum(c.x for c in cs) / len(cs), math.fsum(c.y for c in cs) / len(cs)
+        tot.append(math.fsum(math.hypot(ix - c.x, iy - c.y) for c in cs) * e.weight)
+    return math.fsum(tot)
+
+
 def py_cost(d):
     return FR.total_intersection_area(d) + d.netlist.wire_length / 2
 
@@ -344,6 +380,14 @@ def spec_on_output(ctx: Ctx, inp: dict, before, before_c, die, out_die, what: st
     if out_die is not die:
         ctx.spec_fail(f"{what}:returns-same-die", inp, {}, size=n)
         ok = False
+    try:
+        wl_now, wl_ref = float(out_die.netlist.wire_length), exact_wire_length(out_die)
+        if wl_ref is not None and abs(wl_now - wl_ref) > 1e-9 * max(1.0, abs(wl_ref)):
+            ctx.spec_fail(f"{what}:wire-length-of-current-centres", inp, {"netlist.wire_length": wl_now, "from_centres": wl_ref,
+                                                                          "pre_reads": inp.get("pre_reads")}, size=n)
+            ok = False
+    except AssertionError:
+        pass
     after = snapshot(out_die)
     if after != before:
         ctx.spec_fail(f"{what}:only-centres", inp, {"before": str(before)[:300], "after": str(after)[:300]}, size=n)
@@ -391,6 +435,7 @@ def check_long_run(ctx: Ctx, inp: dict) -> None:
     n = len(inp["mods"])
     before, before_c = snapshot(die), centres(die)
     twin = deepcopy(die)
+    pre_read(die, inp)
     try:
         if inp.get("verbose"):  # the progress report must not change anything
             import contextlib
@@ -446,6 +491,7 @@ def check_force(ctx: Ctx, inp: dict, corr: bool) -> None:
         ctx.spec_fail("operation-raised", inp, {"op": "layout/cost table", "exception": type(ex).__name__, "msg": str(ex)[:100]}, size=n)
         return
     twin = deepcopy(die)
+    pre_read(die, inp)   # AFTER the twin was taken: the twin is the run without any earlier read
     try:
         if inp.get("verbose"):
             import contextlib
@@ -486,7 +532,8 @@ def check_force(ctx: Ctx, inp: dict, corr: bool) -> None:
         ctx.spec_fail("operation-raised", inp, {"op": "force_algorithm (2nd run)", "exception": type(ex).__name__}, size=n)
         return
     if centres(out2) != got:
-        ctx.spec_fail("force:deterministic", inp, {}, size=n)
+        ctx.spec_fail("force:deterministic" if not inp.get("pre_reads") else "force:same-as-object-never-read", inp,
+                      {"pre_reads": inp.get("pre_reads"), "this_object": str(got)[:200], "fresh_object": str(centres(out2))[:200]}, size=n)
     # model side
     reqs = ["F argmin " + f2hex(math.inf) + " " + str(len(table)) + " " + " ".join(f2hex(c) for c in table)]
     if corr:
@@ -532,6 +579,15 @@ class FrameRecorder:
                 self.frames.append([None if m.center is None else (m.center.x, m.center.y) for m in netlist.modules])
                 if self.passthrough:
                     return self.real(netlist, *a, **kw)
+                # the side effect of the real plot (tools/draw/draw.py: calculate_centers), for every iteration count: the
+                # centre of every module with rectangles that sits on a net is re-assigned from its rectangles
+                try:
+                    for e in netlist.edges:
+                        for m in e.modules:
+                            if m.num_rectangles > 0:
+                                m.calculate_center_from_rectangles()
+                except Exception:  # the stand-in must never be the reason of a failure
+                    pass
                 return ("frame", len(self.frames))
             FR.get_floorplan_plot = rec
             self.ok = True
@@ -571,6 +627,7 @@ def check_visualize(ctx: Ctx, inp: dict, real_plot: bool = False) -> None:
     except Exception as ex:
         ctx.spec_fail("operation-raised", inp, {"op": "plain run", "exception": type(ex).__name__, "msg": str(ex)[:100]}, size=n)
         return
+    pre_read(die, inp)
     rec = FrameRecorder(passthrough=real_plot)
     try:
         with rec:
@@ -877,7 +934,7 @@ def run(ctx: Ctx) -> None:
                 "incl. inf/NaN; `layout-kappa0` = kappa = 0 (outside the property): same exception class as the model; `hashseed` = layout and force_algorithm on "
                 "instances with nets of arity 3..6 and 2-3 equal coincident modules, run in-process and in 5 interpreter processes with "
                 "PYTHONHASHSEED 0..4: bit-identical centres required; `visualize` = layout (3/4) / force_algorithm (1/4) with visualize set, 0..9 iterations, every frame and "
-                "the result vs the model, result bit-identical to the plain run, real get_floorplan_plot on ~1/4 of the cases; `tia` = total_intersection_area at arbitrary states "
+                "the result vs the model, result bit-identical to the plain run, real get_floorplan_plot on ~1/4 of the cases; half of the `force` cases and 30% of the `long-run` / `visualize` cases first READ public read-only properties on the very object (netlist.wire_length, edge wire lengths, counts, areas, die size, total_intersection_area): the result must equal the run on an object never read, the best-kappa clause is judged against a cost table computed on fresh copies, and netlist.wire_length after every run must be the wire length of the current centres; the stand-in plot re-assigns the centres of modules with rectangles exactly as the real plot does; `tia` = total_intersection_area at arbitrary states "
                 "(15% with a missing centre, 30% with chains of coincident / tangent discs) vs the model, non-negative, every unordered pair once per order (exact sum of the pair terms), "
                 "same total for a shuffled module order; 1/7 of the long runs and 1/6 of the force runs with verbose=True. Non-trivial = at least one movable module.")
     ctx.assumptions += [
@@ -913,6 +970,8 @@ def run(ctx: Ctx) -> None:
         inp["kappa"] = rng.choice(KAPPAS) if rng.random() < 0.3 else round(rng.uniform(0.05, 3.0), 3)
         inp["iters"] = rng.randint(6, 30 if ctx.tier == "quick" else 100)
         inp["stream"] = "long"
+        if rng.random() < 0.3:
+            inp["pre_reads"] = rng.sample(["wire_length", "edges", "counts", "areas", "die", "tia"], rng.randint(1, 3))
         inp["verbose"] = i % 7 == 2
         check_long_run(ctx, inp)
     for i in range(ctx.n(50, 300)):
@@ -923,6 +982,9 @@ def run(ctx: Ctx) -> None:
                 m["center"] = [1.0, 1.0]
         inp["iters"] = rng.choice([1, 1, 2, 3, 5, 8, 12])
         inp["stream"] = "force"
+        if rng.random() < 0.5:
+            inp["pre_reads"] = ["wire_length"] + rng.sample(["wire_length", "edges", "counts", "areas", "die", "tia"], rng.randint(0, 2))
+            ctx.count("force-after-reading-wire_length")
         inp["verbose"] = i % 6 == 1
         check_force(ctx, inp, corr=inp["iters"] <= 3)
     for i in range(ctx.n(70, 600)):
@@ -937,7 +999,10 @@ def run(ctx: Ctx) -> None:
                 if m["kind"] == "soft" and m.get("center") is None:
                     m["center"] = [1.0, 1.0]
         inp["stream"] = "visualize"
-        inp["real_plot"] = (i % 5 == 0 or i < 4) and inp["iters"] <= 3  # ~0.07 s per frame
+        if rng.random() < 0.3:
+            inp["pre_reads"] = rng.sample(["wire_length", "edges", "counts", "areas", "die", "tia"], rng.randint(1, 2))
+        # ~0.07 s per frame: the real plot on ~1/4 of the short runs and on a few long ones; the stand-in (same side effect) elsewhere
+        inp["real_plot"] = ((i % 5 == 0 or i < 4) and inp["iters"] <= 3) or (i % 12 == 7)
         check_visualize(ctx, inp, real_plot=inp["real_plot"])
     for i in range(ctx.n(120, 1500)):
         inp = gen_lone(rng) if rng.random() < 0.05 else gen_instance(rng, big=ctx.tier != "quick")
